@@ -462,6 +462,7 @@ def run_streams_of_a_left_scope(R: Recorder, case: dict[str, Any]) -> None:
 def run(R: Recorder, tier: str, seed: int, shard: int, nshards: int) -> None:
     if shard == 0:
         argnames.check_ctx_entry_points(R, "items", "stream")
+        argnames.check_injecting_ctx(R, "items", "stream")
         for order, ma, mb, na, nb in itertools.product(("AB", "BA"), ("full", "close"), ("full", "close"), (1, 3), (0, 2)):
             if mb == "close" and nb == 0:
                 continue
@@ -474,6 +475,9 @@ def run(R: Recorder, tier: str, seed: int, shard: int, nshards: int) -> None:
 
 
 def replay(R: Recorder, case: dict[str, Any]) -> None:
+    if "injecting" in case:
+        argnames.check_injecting_ctx(R, "items", "stream")
+        return
     if "ctx_entry" in case:
         argnames.check_ctx_entry_points(R, "items", "stream")
         return
